@@ -144,6 +144,10 @@ def _gen_c(ctx, rnd):
         sv_event(_der(rr, n - ss) + bytes([flag]), pkc, msg, pre, "s->n-s")
         sv_event(sigb[:-1] + bytes([flag ^ 0x80]), pkc, msg, pre, "sighash-byte")
         sv_event(sigb[:-1] + bytes([(flag % 3) + 1 | (flag & 0x80)]), pkc, msg, pre, "sighash-byte")
+        for rv, sv_, cls in [(rr + (1 << 256), ss, "r+2^256"), (rr, ss + (1 << 256), "s+2^256"), (rr + (1 << 264), ss, "r+2^264"),
+                             (rr + n, ss, "r+n"), (rr, ss + n, "s+n"), (0, ss, "r=0"), (rr, 0, "s=0"), (n, ss, "r=n"), (rr, n, "s=n"),
+                             (rr + (3 << 256), ss + (5 << 256), "rs+k2^256"), ((1 << 256) - 1, ss, "r=2^256-1")]:
+            sv_event(_der(rv, sv_) + bytes([flag]), pkc, msg, pre, "der-" + cls)
         sv_event(b"", pkc, msg, pre, "empty-sig")
         sv_event(sigb[:5], pkc, msg, pre, "truncated-sig")
         sv_event(_der(rr, ss)[:2] + b"\x02\x21\x00" + rr.to_bytes(32, "big") + _der(rr, ss)[4 + _der(rr, ss)[3]:] + bytes([flag]) if rr.bit_length() <= 255 else sigb,
